@@ -7,3 +7,4 @@ open Pyrealb.C14
 #print axioms management_named_lexicon_holds
 #print axioms writes_allowed_tbl_holds
 #print axioms model_writes_agree_tbl_holds
+#print axioms lang_switch_tbl_holds
